@@ -324,6 +324,11 @@ class SimulatorBase(
     ) -> SimulationStateBase[TSimulationState]:
         if isinstance(initial_state, SimulationStateBase):
             return initial_state
+        if isinstance(initial_state, value.ProductState) and set(initial_state.qubits) == set(
+            qubits
+        ):
+            # A product state names its qubits, so lay it out in the simulation's qubit order.
+            initial_state = initial_state.state_vector(qubit_order=qubits)
 
         classical_data = value.ClassicalDataDictionaryStore()
         if self._split_untangled_states:
